@@ -635,7 +635,7 @@ func main() {
 	must(os.MkdirAll(*out, 0o755))
 	r := hx.NewRng(*seed)
 	sum := hx.NewSummary("C15")
-	sum.Rule = "invocations of actionlint.Command.Main on a scratch repository (4 workflow files, 20 distinct messages): cwd in {root, parent, grandparent, 3 nested, unrelated} x spelling in {relative, ./, absolute, noisy (detours, //), no arguments} x 1-3 files x 0-3 `paths` entries from a pool of 20 globs x ignore patterns from a pool of 20 regular expressions (CLI only / config only / both) + 11 exit-status invocations (help, version, bad flags, fatal errors); non-trivial = at least one diagnostic was filtered out and at least one remained; distinct = distinct (cwd, args, config)"
+	sum.Rule = "invocations of actionlint.Command.Main on a scratch repository (4 workflow files, 14 distinct messages of 10 rules): cwd in {root, parent, grandparent, 3 nested, unrelated} x spelling in {relative, ./, absolute, noisy (detours, //), no arguments} x 1-3 files x 0-3 `paths` entries from a pool of 20 globs x ignore patterns from a pool of 20 regular expressions (CLI only / config only / both) + 11 exit-status invocations (help, version, bad flags, fatal errors); non-trivial = at least one diagnostic was filtered out and at least one remained; distinct = distinct (cwd, args, config)"
 	cases, err := os.Create(filepath.Join(*out, "cases.txt"))
 	must(err)
 	defer cases.Close()
